@@ -602,6 +602,14 @@ pub fn verify(v: &VerifierData, p: &ProofData, pis: &[Fe], ver: Version) -> bool
 /// `None` = rejected before the equation (PI length, PI row outside the
 /// domain, z in the domain).
 pub fn verify_trace(v: &VerifierData, p: &ProofData, pis: &[Fe], ver: Version) -> Option<Trace> {
+    let ch = challenges(v, p, pis, ver);
+    verify_trace_ch(v, p, pis, ver, ch)
+}
+
+/// The verification equation evaluated under the GIVEN challenges (used by
+/// the adversarial strategies that bet on a challenge not depending on some
+/// proof element; `verify` always uses the protocol's own transcript).
+pub fn verify_trace_ch(v: &VerifierData, p: &ProofData, pis: &[Fe], ver: Version, ch: Challenges) -> Option<Trace> {
     if pis.len() != v.pi_rows.len() {
         return None;
     }
@@ -609,7 +617,6 @@ pub fn verify_trace(v: &VerifierData, p: &ProofData, pis: &[Fe], ver: Version) -
     if v.pi_rows.iter().any(|r| *r >= n) {
         return None;
     }
-    let ch = challenges(v, p, pis, ver);
     let elems = domain_elements(n);
     let omega = if n > 1 { elems[1] } else { BlsScalar::one() };
     let z = ch.z;
@@ -797,4 +804,40 @@ pub fn selfcheck() -> Result<(), String> {
         return Err("edwards_d does not satisfy the curve equation on the JubJub generator".into());
     }
     Ok(())
+}
+
+
+/// Challenges as a verifier would derive them if it drew `u` BEFORE absorbing
+/// the two opening-witness commitments (a transcript-ordering mistake that no
+/// honest proof can reveal, because the prover never uses `u`).
+pub fn challenges_u_before_openings(v: &VerifierData, p: &ProofData, pis: &[Fe], ver: Version) -> Challenges {
+    let mut t = transcript_table(v, p, pis, ver);
+    // ... Point(w_z), Point(w_zw), Squeeze(u)  ->  ... Squeeze(u)
+    let n = t.len();
+    let u = t.remove(n - 1);
+    t.truncate(n - 3);
+    t.push(u);
+    run_table(&v.label, &t)
+}
+
+/// Replace the two opening witnesses of `p` so that the verification equation
+/// holds under the given challenges whatever the rest of the proof claims:
+/// with W_zw = T and W_z = -u T the left pairing input vanishes and
+/// T = P / (u z (1 - w)) cancels the right one (P = F - E G).
+pub fn forge_openings(v: &VerifierData, p: &ProofData, pis: &[Fe], ver: Version, ch: Challenges) -> Option<ProofData> {
+    let mut q = p.clone();
+    q.comms[W_Z_COMM] = G1Affine::identity();
+    q.comms[W_ZW_COMM] = G1Affine::identity();
+    let t = verify_trace_ch(v, &q, pis, ver, ch)?;
+    // with identity openings rhs = P
+    let n = domain_size(v.n);
+    let elems = domain_elements(n);
+    let omega = if n > 1 { elems[1] } else { BlsScalar::one() };
+    let den = ch.u * ch.z * (BlsScalar::one() - omega);
+    let den_inv: Option<Fe> = den.invert().into();
+    let den_inv = den_inv?;
+    let tt = G1Projective::from(t.rhs) * den_inv;
+    q.comms[W_ZW_COMM] = G1Affine::from(tt);
+    q.comms[W_Z_COMM] = G1Affine::from(-(tt * ch.u));
+    Some(q)
 }
